@@ -45,8 +45,24 @@ def failing_ops_probe(chk):
                 ("PUT", P + ("n" * 300) + ".ics", {"Content-Type": "text/calendar"}, vevent("long-name")),
                 ("PUT", P + "ok.ics", {"Content-Type": "text/calendar"}, vevent("fine")),
                 ("DELETE", P + "twice.ics", {"If-Match": '"0000000000000000000000000000000000000000"'}, b""),
+                # another git process holds the index lock: writes are refused (423) and leave nothing
+                ("LOCK", "", {}, b""),
+                ("PUT", P + "ok.ics", {"Content-Type": "text/calendar"}, vevent("fine", summary="changed while locked")),
+                ("PUT", P + "new-while-locked.ics", {"Content-Type": "text/calendar"}, vevent("nwl")),
+                ("DELETE", P + "ok.ics", {}, b""),
+                ("UNLOCK", "", {}, b""),
+                ("PUT", P + "after.ics", {"Content-Type": "text/calendar"}, vevent("after")),
             ]
+            held = False
             for (m, t, h, b) in steps:
+                if m in ("LOCK", "UNLOCK"):
+                    lock = os.path.join(d, ".git", "index.lock")
+                    if m == "LOCK":
+                        open(lock, "wb").close()
+                    else:
+                        os.remove(lock)
+                    held = (m == "LOCK")
+                    continue
                 repo = dulwich.repo.Repo(d)
                 n0 = sum(1 for _ in repo.get_walker())
                 repo.close()
@@ -57,8 +73,10 @@ def failing_ops_probe(chk):
                 chk.count("failing-ops-probe:%s:%d" % (m, r.status))
                 rep = {"level": "http", "frontend": fe, "request": [m, t, h], "status": r.status}
                 problems = git_cli_checks(d, False)
-                if os.path.exists(os.path.join(d, ".git", "index.lock")):
+                if not held and os.path.exists(os.path.join(d, ".git", "index.lock")):
                     problems.append("index.lock left behind")
+                if held and not os.path.exists(os.path.join(d, ".git", "index.lock")):
+                    problems.append("the index lock held by another process was removed")
                 if r.status >= 400 and n1 != n0:
                     problems.append("a request answered %d made %d commit(s)" % (r.status, n1 - n0))
                 for pr in problems:
